@@ -4218,6 +4218,22 @@ fn attribute_name(name: &parser::AttributeName) -> (String, Option<String>) {
 }
 
 fn attr_value_from_name(name: &str, context: &Context) -> error::Result<String> {
+    attr_value_from_name_in(name, context, &mut vec![])
+}
+
+fn attr_value_from_name_in(
+    name: &str,
+    context: &Context,
+    open: &mut Vec<String>,
+) -> error::Result<String> {
+    if open.iter().any(|v| v == name) {
+        return Err(error::Error::InvalidData(format!(
+            "entity `{}` refers to itself",
+            name
+        )));
+    }
+    open.push(name.to_string());
+
     let entity = context.entity(name)?;
     let mut parsed = String::new();
     for value in entity.borrow().values().unwrap_or_default() {
@@ -4228,7 +4244,7 @@ fn attr_value_from_name(name: &str, context: &Context) -> error::Result<String> 
                 _ => unreachable!(),
             },
             XmlEntityValue::Entity(v) => {
-                let v = attr_value_from_name(v, context)?;
+                let v = attr_value_from_name_in(v, context, open)?;
                 parsed.push_str(v.as_str());
             }
             XmlEntityValue::Parameter(v) => {
@@ -4240,6 +4256,8 @@ fn attr_value_from_name(name: &str, context: &Context) -> error::Result<String> 
             XmlEntityValue::Text(v) => parsed.push_str(normalize_ws(v).as_str()),
         }
     }
+
+    open.pop();
     Ok(parsed)
 }
 
